@@ -565,6 +565,281 @@ def arg_mode_facts(fn, P):
 
 
 
+# ---- the error object: what `__str__` depends on, what `_finalize` sets, how errors are copied -----
+
+def _attr_of(n, names=('self',)):
+    """X for `self.X` (Load or Store) and for `getattr(self, 'X', …)` / `hasattr(self, 'X')`"""
+    if isinstance(n, ast.Attribute) and isinstance(n.value, ast.Name) and n.value.id in names:
+        return n.attr
+    if (isinstance(n, ast.Call) and isinstance(n.func, ast.Name) and n.func.id in ('getattr', 'hasattr')
+            and len(n.args) >= 2 and isinstance(n.args[0], ast.Name) and n.args[0].id in names
+            and isinstance(n.args[1], ast.Constant) and isinstance(n.args[1].value, str)):
+        return n.args[1].value
+    return None
+
+
+def err_mutable_attrs(cls):
+    """attributes of an instance that methods of the class (other than __init__) assign: `x.A = …`
+    for any local name x (self, wrapper …), `setattr(x, 'A', …)`, `x.__dict__[...]`"""
+    out = []
+    for fn in cls.body:
+        if not isinstance(fn, ast.FunctionDef) or fn.name == '__init__':
+            continue
+        for n in ast.walk(fn):
+            tg = []
+            if isinstance(n, ast.Assign):
+                tg = n.targets
+            elif isinstance(n, (ast.AugAssign, ast.AnnAssign)):
+                tg = [n.target]
+            elif isinstance(n, ast.Delete):
+                tg = n.targets
+            for t in tg:
+                for x in ast.walk(t):
+                    if isinstance(x, ast.Attribute) and isinstance(x.value, ast.Name) and isinstance(x.ctx, (ast.Store, ast.Del)):
+                        if x.attr not in out:
+                            out.append(x.attr)
+            if isinstance(n, ast.Call) and isinstance(n.func, ast.Name) and n.func.id == 'setattr' and len(n.args) >= 2:
+                a = n.args[1].value if isinstance(n.args[1], ast.Constant) else 'setattr:' + ast.unparse(n.args[1])
+                if a not in out:
+                    out.append(a)
+            if isinstance(n, ast.Attribute) and n.attr == '__dict__' and '__dict__' not in out:
+                out.append('__dict__')
+    return out
+
+
+def err_finalize_sets(fn, P):
+    """`_finalize`: attribute -> kind of the value of its LAST unconditional (top-level) assignment:
+    'None', 'param:<name>' (a parameter, as it is), 'derived'; an attribute assigned only under a
+    condition: 'cond'"""
+    params = [a.arg for a in fn.args.args[1:]]
+    out = {}
+    order = []
+
+    def kind(v):
+        if isinstance(v, ast.Constant) and v.value is None:
+            return 'None'
+        if isinstance(v, ast.Name) and v.id in params:
+            return 'param:' + v.id
+        return 'derived'
+
+    def note(a, k):
+        if a not in order:
+            order.append(a)
+        out[a] = k
+    for st in fn.body:
+        if isinstance(st, ast.Assign):
+            for t in st.targets:
+                a = _attr_of(t)
+                if a is not None:
+                    note(a, kind(st.value))
+        elif isinstance(st, (ast.If, ast.For, ast.While, ast.Try, ast.With)):
+            for n in ast.walk(st):
+                if isinstance(n, ast.Assign):
+                    for t in n.targets:
+                        a = _attr_of(t)
+                        if a is not None:
+                            if a not in out:
+                                note(a, 'cond')
+                            elif out[a] != 'derived' and kind(n.value) != out[a]:
+                                note(a, 'cond')           # an unconditional reset conditionally undone
+        elif isinstance(st, ast.Delete):
+            for t in st.targets:
+                a = _attr_of(t)
+                if a is not None:
+                    note(a, 'None')
+    return [(a, out[a]) for a in order]
+
+
+def err_str_flow(fn, mutable, P):
+    """`__str__`, path by path: (mutable attributes read on some path before that path has written
+    them = what the message depends on; attributes written)"""
+    inputs, writes = [], []
+
+    def reads(expr, W):
+        for n in ast.walk(expr):
+            a = _attr_of(n)
+            if a is None or (isinstance(n, ast.Attribute) and not isinstance(n.ctx, ast.Load)):
+                continue
+            if a in mutable and a not in W and a not in inputs:
+                inputs.append(a)
+
+    def merge(ws):
+        ws = [w for w in ws if w is not None]
+        if not ws:
+            return None
+        r = set(ws[0])
+        for w in ws[1:]:
+            r &= w
+        return r
+
+    def run(stmts, W):
+        """-> attributes written on every path that falls through (None: no path does)"""
+        for st in stmts:
+            if isinstance(st, ast.Expr):
+                reads(st.value, W)
+            elif isinstance(st, ast.Assign):
+                reads(st.value, W)
+                for t in st.targets:
+                    a = _attr_of(t)
+                    if a is not None:
+                        if a not in writes:
+                            writes.append(a)
+                        W = W | {a}
+                    else:
+                        for x in ast.walk(t):
+                            if x is not t:
+                                reads(x, W)
+            elif isinstance(st, ast.AugAssign):
+                reads(st.value, W)
+                a = _attr_of(st.target)
+                if a is not None:
+                    if a in mutable and a not in W and a not in inputs:
+                        inputs.append(a)
+                    if a not in writes:
+                        writes.append(a)
+                    W = W | {a}
+            elif isinstance(st, ast.Return):
+                if st.value is not None:
+                    reads(st.value, W)
+                return None
+            elif isinstance(st, ast.Raise):
+                if st.exc is not None:
+                    reads(st.exc, W)
+                return None
+            elif isinstance(st, ast.If):
+                reads(st.test, W)
+                W2 = merge([run(st.body, set(W)), run(st.orelse, set(W))])
+                if W2 is None:
+                    return None
+                W = W2
+            elif isinstance(st, ast.Try):
+                ws = [run(st.body + st.orelse, set(W))] + [run(h.body, set(W)) for h in st.handlers]
+                W2 = merge(ws)
+                if st.finalbody:
+                    W2 = run(st.finalbody, set(W) if W2 is None else W2)
+                if W2 is None:
+                    return None
+                W = W2
+            elif isinstance(st, (ast.For, ast.While)):
+                reads(st.iter if isinstance(st, ast.For) else st.test, W)
+                run(st.body, set(W))
+                run(st.orelse, set(W))
+            elif isinstance(st, ast.Pass):
+                pass
+            else:
+                P.add('GlomError.__str__: statement not recognised: ' + ast.unparse(st).splitlines()[0])
+        return W
+    run(fn.body, set())
+    return inputs, writes
+
+
+def err_subclasses(trees):
+    """names of the classes of glom that derive from GlomError (transitively, by name), with their ClassDef"""
+    classes = {}
+    for m, tree in trees:
+        for n in tree.body:
+            if isinstance(n, ast.ClassDef):
+                classes[n.name] = n
+    sub = {'GlomError'}
+    changed = True
+    while changed:
+        changed = False
+        for name, c in classes.items():
+            if name not in sub and any(isinstance(b, ast.Name) and b.id in sub for b in c.bases):
+                sub.add(name)
+                changed = True
+    return [(name, classes[name]) for name in classes if name in sub and name != 'GlomError']
+
+
+def err_copy_kind(fn):
+    """what a `__copy__` builds: 'fresh' = `return type(self)(…)` / `self.__class__(…)` and nothing else"""
+    body = [st for st in fn.body if not (isinstance(st, ast.Expr) and isinstance(st.value, ast.Constant))]
+    if len(body) == 1 and isinstance(body[0], ast.Return) and isinstance(body[0].value, ast.Call):
+        f = ast.unparse(body[0].value.func)
+        if f in ('type(self)', 'self.__class__'):
+            return 'fresh'
+    return 'other:' + ' | '.join(ast.unparse(st).splitlines()[0] for st in body)
+
+
+def err_lines(node, word):
+    """the statements (first source line of each, via ast.unparse) below `node` that mention `word`, in order"""
+    out = []
+
+    def emit(stmts):
+        for st in stmts:
+            first = ast.unparse(st).splitlines()[0]
+            if isinstance(st, (ast.If, ast.Try, ast.For, ast.While, ast.With)):
+                if isinstance(st, ast.If) and re_word(word, ast.unparse(st.test)):
+                    out.append(first)
+                for fld in ('body', 'handlers', 'orelse', 'finalbody'):
+                    sub = getattr(st, fld, [])
+                    for x in sub:
+                        if isinstance(x, ast.ExceptHandler):
+                            emit(x.body)
+                    emit([x for x in sub if not isinstance(x, ast.ExceptHandler)])
+            elif re_word(word, first):
+                out.append(first)
+    emit(node if isinstance(node, list) else node.body)
+    return out
+
+
+def re_word(word, text):
+    import re
+    return re.search(r'(?<![A-Za-z0-9_])' + re.escape(word) + r'(?![A-Za-z0-9_])', text) is not None
+
+
+def err_facts(ctx, core):
+    P = ctx['P']
+    find_def = ctx['find_def']
+    ge = find_def(core, 'GlomError')
+    if ge is None:
+        P.add('class GlomError not found')
+        return [], [], [], [], [], [], [], [], []
+    mutable = err_mutable_attrs(ge)
+    fin = find_def(core, '_finalize', cls='GlomError')
+    fsets = err_finalize_sets(fin, P) if fin is not None else []
+    if fin is None:
+        P.add('GlomError._finalize not found')
+    st = find_def(core, '__str__', cls='GlomError')
+    if st is None:
+        P.add('GlomError.__str__ not found')
+        inputs, writes = [], []
+    else:
+        inputs, writes = err_str_flow(st, mutable, P)
+    trees = [('core', core)]
+    for m in MODULES[1:]:
+        try:
+            trees.append((m, ctx['src_tree'](m + '.py')))
+        except OSError:
+            pass
+    str_over, copy_over = [], []
+    for name, c in err_subclasses(trees):
+        for fn in c.body:
+            if not isinstance(fn, ast.FunctionDef):
+                continue
+            if fn.name == '__str__':
+                str_over.append(name)
+            elif fn.name == '__copy__':
+                copy_over.append((name + '.__copy__', err_copy_kind(fn)))
+            elif fn.name in ('__deepcopy__', '__reduce__', '__reduce_ex__', '__getstate__', '__setstate__', '__getnewargs__'):
+                copy_over.append((name + '.' + fn.name, 'other'))
+    for fn in ge.body:
+        if isinstance(fn, ast.FunctionDef) and fn.name in ('__copy__', '__deepcopy__', '__reduce__', '__reduce_ex__',
+                                                           '__getstate__', '__setstate__', '__getnewargs__'):
+            copy_over.append(('GlomError.' + fn.name, 'other'))
+    g = find_def(core, 'glom')
+    exit_shape = err_lines(g, 'err') if g is not None else []
+    w = find_def(core, 'wrap', cls='GlomError')
+    wrap_shape = err_lines(w, 'wrapper') if w is not None else []
+    if w is None:
+        P.add('GlomError.wrap not found')
+    sw = find_def(core, '_set_wrapped', cls='GlomError')
+    set_wrapped = [ast.unparse(x) for x in sw.body] if sw is not None else []
+    if sw is None:
+        P.add('GlomError._set_wrapped not found')
+    return mutable, fsets, inputs, writes, str_over, copy_over, exit_shape, wrap_shape, set_wrapped
+
+
 def extract(ctx):
     P = ctx['P']
     find_def = ctx['find_def']
@@ -693,6 +968,19 @@ def extract(ctx):
         ('c20ParentLinkKeys', 'List String', plink),
         ('c20SpecGlomResets', 'List (String × String)', spec_resets),
         ('c20GlomResets', 'List (String × String)', glom_resets),
+    ]
+    # ---- the error object
+    (e_mut, e_fsets, e_inputs, e_writes, e_strover, e_copyover, e_exit, e_wrap, e_setw) = err_facts(ctx, core)
+    facts += [
+        ('c20ErrMutableAttrs', 'List String', e_mut),
+        ('c20ErrFinalizeSets', 'List (String × String)', e_fsets),
+        ('c20ErrStrInputs', 'List String', e_inputs),
+        ('c20ErrStrWrites', 'List String', e_writes),
+        ('c20ErrStrOverrides', 'List String', e_strover),
+        ('c20ErrCopyOverrides', 'List (String × String)', e_copyover),
+        ('c20ErrExitShape', 'List String', e_exit),
+        ('c20ErrWrapShape', 'List String', e_wrap),
+        ('c20ErrSetWrapped', 'List String', e_setw),
     ]
     return [('C20Facts', 'shared state of glom calls: cache access shapes, writes to module/class state, '
              'per-call scope literals', facts)]
